@@ -24,6 +24,6 @@ Next == /\ l <= Len(Traces[tid].lines)
 Spec == Init /\ [][Next]_vars
 
 BadSeq == << <<"C01", bad["C01"]>>, <<"C02", bad["C02"]>>, <<"C04", bad["C04"]>>, <<"C05", bad["C05"]>>,
-             <<"C06", bad["C06"]>>, <<"C07", bad["C07"]>>, <<"M", bad["M"]>> >>
+             <<"C06", bad["C06"]>>, <<"C07", bad["C07"]>>, <<"C08", bad["C08"]>>, <<"M", bad["M"]>> >>
 Report == (l = Len(Traces[tid].lines) + 1) => PrintT(<<"VERDICT", tid, BadSeq, 0>>)
 =============================================================================
